@@ -15,7 +15,7 @@ ASSUMPTIONS = ["augmentation off for the determinism / label-equality checks (sc
                "frames that contain user instances are filtered to them (user_instances_only=True); frames with only predicted instances are not generated",
                "purity is asserted for tensor / ndarray arguments (and one level into dict examples)"]
 SHARDS = {"quick": 8, "thorough": 16}
-N = {"quick": 480, "thorough": 12000}
+N = {"quick": 480, "thorough": 24000}
 BUDGET = {"quick": 110, "thorough": 1500}
 TIMEOUT = {"quick": 700, "thorough": 3000}
 SELF_SHARDED = True
